@@ -1,6 +1,7 @@
 import LocustModel.Proto
 import LocustModel.Query.ArithTree
 import LocustModel.Query.ArithPlan
+import LocustModel.Query.ArithSelect
 import LocustModel.Query.Sum
 /-
   Driver for C06.  Input lines (written by harness/src/bin/c06.rs):
@@ -75,19 +76,29 @@ def isShapeErr : QOut → Bool
   | .err .notimpl | .err .type | .err .fatal => true
   | _ => false
 
-/-- Classifier of the open finding `select-i64max-null`: the implementation shows NULL exactly where the exact
-    result is i64::MAX (and agrees everywhere else), as the model of `wrap_one` predicts. -/
+/-- The implementation shows NULL exactly where the exact result is i64::MAX (and agrees everywhere else). -/
 def onlyMaxAsNull (spec impl : List (Option Int)) : Bool :=
   spec.length == impl.length &&
   (List.zip spec impl).all (fun (s, i) => s == i || (s == some I64_MAX && i == none)) &&
   (List.zip spec impl).any (fun (s, i) => s == some I64_MAX && i == none)
+
+/-- Classifier of the open finding `select-i64max-null`: the case lies in the region `ArithPlan.sentinelShown` (the result
+    column is a plain I64 vector in EVERY partition and some computed cell is exactly i64::MAX — the negation of the
+    hypothesis of `C06_select_partial`), the implementation's output is literally the one the model (`renderI64`) predicts,
+    and it differs from the exact rows only by NULL at cells whose exact value is i64::MAX. -/
+def isSelectSentinel (parts : List (Nat × (Nat → Option PCol))) (e : Expr) (model : QOut) (spec : QResult)
+    (impl : String) : Bool :=
+  match model, spec with
+  | .rows m, .rows s => sentinelShown parts e && impl == "rows:" ++ showCells m && onlyMaxAsNull s m
+  | _, _ => false
 
 def stepExpr (rpn : String) (bounds : String) (rest : List String) : String :=
   match rest.reverse with
   | impl :: colsRev =>
     match parseRpn (rpn.splitOn ","), parseBounds bounds, colsRev.reverse.mapM parseCol with
     | some e, some bs, some cs =>
-        let model := runQuery (partsOf bs cs) e
+        let parts := partsOf bs cs
+        let model := runQuery parts e
         let rows := transpose cs
         let spec := runSpec e rows
         let specStr :=
@@ -96,10 +107,7 @@ def stepExpr (rpn : String) (bounds : String) (rest : List String) : String :=
             -- the documented spurious Overflow of `(i64::MIN+1) / -1`: the error and the exact rows are both allowed
             if impl = "err:overflow" || impl = showSpec spec then "OK" else "BAD expected " ++ showSpec spec ++ " or err:overflow"
           else showSpec spec
-        let known :=
-          match model, spec with
-          | .rows m, .rows s => if onlyMaxAsNull s m then "\tselect-i64max-null" else ""
-          | _, _ => ""
+        let known := if isSelectSentinel parts e model spec impl then "\tselect-i64max-null" else ""
         showQOut model ++ "\t" ++ specStr ++ known
     | _, _, _ => "bad-op\tbad-op"
   | [] => "bad-op\tbad-op"
